@@ -397,6 +397,11 @@ func (s *Sim) exec(op Op) {
 	case "confirm":
 		relType := op.Type
 		if m := sh.Allocs[op.Key]; m != nil && m.Status == stReleasing {
+			if m.RelType != "" && relType != m.RelType && op.Fault != "confirm_wrong_type" {
+				// a confirmation the minimiser moved to another release of the same key: the shim confirms what it
+				// was asked for (a wrong type is a fault of its own, and marked as such)
+				relType = m.RelType
+			}
 			m.Status = stGone
 			m.RejectReason = "release confirmed (" + m.RelType + ")"
 			infl.confirms[op.Key] = true
@@ -627,6 +632,9 @@ func (s *Sim) handleObligations() {
 			}
 		}
 		cop := Op{Kind: "confirm", Key: o.Key, AppID: o.App, Type: typ}
+		if typ != o.Type.String() {
+			cop.Fault = "confirm_wrong_type"
+		}
 		s.doStep(cop)
 		if s.faultOn("confirm_dup") && s.frng.Bool(s.cfg.FaultRate*4) {
 			s.faults["confirm_dup"]++
